@@ -25,7 +25,58 @@ NOT_DECIDED = ("the invariants over operation histories (parents are true ancest
 REPOINT = "repoint_parents_to_surviving_ancestors"
 
 
+def r0(ctx: Ctx) -> None:
+    ctx.rule("C15.R0", "parent repointing walks each survivor independently: every variable mutated inside the per-survivor loop "
+             "is initialised inside that iteration; the walk follows parent_of until it reaches a kept id, None or -1", 3)
+    f = ctx.fn("snapshot_manager.repoint_parents_to_surviving_ancestors")
+    g = ctx.cfg(f)
+    rd = ctx.rd(f)
+    loops = [n for n in g.nodes if n.kind == "loop" and isinstance(n.ast, ast.For)]
+    kept_param = f.params[1].name if len(f.params) > 1 else "kept"
+    outer = [l for l in loops if norm_text(l.ast.iter) == kept_param]  # type: ignore[union-attr]
+    if not outer:
+        raise AnalysisError("per-survivor loop vanished from repoint_parents_to_surviving_ancestors")
+    ol = outer[0]
+    inside = [n for n in g.nodes if any(fr.kind == "loop" and fr.node is ol.ast for fr in n.frames) and n.id in g.reachable()]
+    from ..flow import node_defs
+    mutated = set()
+    for n in inside:
+        for d in node_defs(n):
+            v = d.lstrip("~")
+            if "." in v:
+                continue  # snapshot.parent_snapshot_id: attribute of the loop variable
+            mutated.add(v)
+    for v in sorted(mutated):
+        uses = [n for n in inside if n.ast is not None and v in names_in(n.ast if n.kind != "call" else n.ast)]
+        leak = []
+        for u in uses:
+            for d in rd.reaching(u.id, v):
+                dn = g.nodes[d]
+                if not any(fr.kind == "loop" and fr.node is ol.ast for fr in dn.frames) and dn.id != ol.id:
+                    leak.append((u, dn))
+        ctx.ob("C15.R0", f, f"`{v}` carries no state from one survivor to the next", leak[0][0] if leak else ol, not leak,
+               (f"a definition outside the per-survivor loop (line {leak[0][1].lineno}) reaches a use inside it: e.g. a cycle-guard "
+                f"set shared by all survivors makes a second survivor's walk stop at an ancestor the first one already visited "
+                f"(its parent becomes None instead of the nearest surviving ancestor)") if leak else "initialised per iteration",
+               text=v)
+    wh = [n for n in g.nodes if n.kind == "loop_head" and any(fr.kind == "loop" and fr.node is ol.ast for fr in n.frames)]
+    tests = [b for b in g.nodes if b.kind == "branch" and any(fr.kind == "loop" and fr.node is ol.ast for fr in b.frames)]
+    txt = " ".join(b.text for b in tests)
+    ok = bool(wh) and "is not None" in txt and "-1" in txt and "not in" in txt
+    ctx.ob("C15.R0", f, "walk continues while the parent is a removed snapshot", wh[0] if wh else None, ok,
+           f"loop conditions: {[b.text for b in tests][:5]}")
+    step = [n for n in inside if n.kind == "stmt" and isinstance(n.ast, ast.Assign) and "parent_of" in norm_text(n.ast.value)]
+    src = [n for n in g.nodes if n.kind == "stmt" and isinstance(n.ast, ast.Assign) and norm_text(n.ast.targets[0]) == "parent_of"]
+    ok = bool(step) and bool(src) and f.params[0].name in norm_text(src[0].ast.value)  # type: ignore[union-attr]
+    ctx.ob("C15.R0", f, "ancestry is read from the PRE-removal list", src[0] if src else None, ok,
+           "parent_of is built from the first argument (all snapshots before removal)")
+    fin = [n for n in inside if n.kind == "stmt" and isinstance(n.ast, ast.Assign) and norm_text(n.ast.targets[0]).endswith(".parent_snapshot_id")]
+    ctx.ob("C15.R0", f, "the survivor's parent is set to the walk's result", fin[0] if fin else None,
+           bool(fin) and isinstance(fin[0].ast.value, ast.Name), "")  # type: ignore[union-attr]
+
+
 def check(ctx: Ctx) -> None:
+    r0(ctx)
     r1(ctx)
     r2(ctx)
     r3(ctx)
